@@ -459,11 +459,18 @@ class _IncomingPacketHandler(Thread):
         possibility to add a mask for channel and port for multiple
         hits for same callback.
         """
-        for port_callback in self.cb:
+        # Look through a copy: the table is changed here and may be changed by
+        # another thread (or by a callback that removes itself) at the same time,
+        # which makes an iteration over the table itself skip entries
+        for port_callback in list(self.cb):
             if port_callback.port == port and port_callback.port_mask == port_mask and \
                     port_callback.channel == channel and port_callback.channel_mask == channel_mask and \
                     port_callback.callback == cb:
-                self.cb.remove(port_callback)
+                try:
+                    self.cb.remove(port_callback)
+                except ValueError:
+                    # Removed by someone else in the meantime
+                    pass
 
     def run(self):
         while True:
